@@ -106,6 +106,25 @@ func Bytes(name string, n int) []byte {
 // String returns a string of n symbolic bytes.
 func String(name string, n int) string { return string(Bytes(name, n)) }
 
+// OneOf reports whether b occurs in set (the executor builds one disjunction, no fork).
+func OneOf(b byte, set string) bool {
+	for i := 0; i < len(set); i++ {
+		if set[i] == b {
+			return true
+		}
+	}
+	return false
+}
+
+// Go starts fn as a thread of the scenario.
+func Go(fn func()) { go fn() }
+
+// Yield is a possible context switch.
+func Yield() {}
+
+// Quiesce waits until no thread of the scenario can run and returns how many are still alive.
+func Quiesce() int { return 0 }
+
 // Param returns a bound from the check configuration.
 func Param(name string, def int) int {
 	load()
